@@ -36,7 +36,7 @@ import numpy as np
 from .. import core
 from .. import cox_common as cc
 
-MATS, RADS, OBS, EDGES, INFO, CONFIGS = [], [], [], [], {}, []
+MATS, RADS, OBS, EDGES, INFO, CONFIGS, CONTAINERS = [], [], [], [], {}, [], list(cc.DIAGRAM_CONTAINERS)
 
 
 def as_obj(x):
@@ -179,7 +179,7 @@ def check_config(m, ball, cfgd):
     n = len(M)
     bad = []
     try:
-        G, names = cc.build_group(M, cfgd["route"], cfgd["style"], cfgd["inf"])
+        G, names = cc.build_group(M, cfgd["route"], cfgd["style"], cfgd["inf"], cfgd.get("container", "list"))
     except Exception as e:
         return [("raised:CoxeterGroup", "%s: %s" % (type(e).__name__, e))], 1
     evals = 0
@@ -291,7 +291,10 @@ def check_matrix(args):
     out = []
     tot = 0
     for ci in cfg_idx:
-        cfgd = CONFIGS[ci]
+        cfgd = dict(CONFIGS[ci])
+        if cfgd["route"] == "diagram":
+            # "an iterable of tuples": containers and one-shot iterables in rotation
+            cfgd["container"] = CONTAINERS[(m + ci) % len(CONTAINERS)]
         bad, ev = check_config(m, ball, cfgd)
         tot += ev
         for clause, detail in bad[:4]:
@@ -359,7 +362,7 @@ def check_triangle(args):
 
 
 def run(run, replay=None):
-    global MATS, RADS, OBS, EDGES, INFO, CONFIGS
+    global MATS, RADS, OBS, EDGES, INFO, CONFIGS, CONTAINERS
     quick = run.tier == "quick"
     rng = random.Random(run.seed)
     run.rule = ("a case is one (Coxeter matrix, configuration) pair: all representations of the library evaluated on every "
@@ -403,7 +406,8 @@ def run(run, replay=None):
         "along TLC's graph, relators, orders, form identities in float (1e-9 relative, 1e-7 after diagonalisation)",
         "diagonalize / hyperbolic_rep only where the cosine form is nondegenerate / of signature (d,1): decided by the specification for "
         "ranks 2, 3 (all labels) and for integral Cartan matrices, otherwise by numpy eigenvalues of -cos(pi/m) with margin 1e-3",
-        "tits_vinberg_rep / cartan_representation are not combined with diagonalize; every pair of generators is listed in a diagram",
+        "tits_vinberg_rep / cartan_representation are not combined with diagonalize; every pair of generators is listed in a diagram; "
+        "the diagram is handed over as list / tuple / generator / zip / iterator / map in rotation (documented as 'an iterable of tuples')",
         "infinite order of a product: powers up to 13 differ from I",
     ]
     workers = min(8, core.NCPU)
@@ -415,6 +419,9 @@ def run(run, replay=None):
     if "CFG" not in tables or "TRI" not in tables or len(INFO) != len(MATS):
         raise core.MachineryFailure("CoxeterRep.tla did not print its tables")
     CONFIGS = tables["CFG"]
+    if "DGC" not in tables or not set(tables["DGC"]) <= set(cc.DIAGRAM_CONTAINERS):
+        raise core.MachineryFailure("CoxeterRep.tla did not print the table of diagram containers")
+    CONTAINERS = sorted(tables["DGC"])
     ncfg = len(CONFIGS)
     plan = []
     for m in range(len(MATS)):
@@ -448,7 +455,8 @@ def run(run, replay=None):
         run.evaluations += tot
         run.traces += 1
         for ctx, clause, detail in bad:
-            key = "cox:%s:%s/%s/%s/%s" % (cc.short(ctx["matrix"]), ctx["route"], ctx["style"], "diag" if ctx["diag"] else "plain", ctx["inf"])
+            key = "cox:%s:%s/%s/%s/%s" % (cc.short(ctx["matrix"]), ctx["route"] + ("(%s)" % ctx["container"] if "container" in ctx else ""),
+                                          ctx["style"], "diag" if ctx["diag"] else "plain", ctx["inf"])
             run.violation(key, clause, dict(case=ctx, observed=detail))
         if sample:
             run.sample(sample)
